@@ -256,6 +256,26 @@ func ruleC07Refusal(p *Prog, r *Res) {
 				return false
 			}
 			switch y := x.(type) {
+			case *ast.Ident:
+				// a named boolean: `tooManyStreams := len(w.streams) > math.MaxUint32`
+				if v, ok := owner.Pkg.TypesInfo.Uses[y].(*types.Var); ok && !v.IsField() && depth >= 0 {
+					if bt, isB := v.Type().Underlying().(*types.Basic); isB && bt.Kind() == types.Bool && owner.Body() != nil {
+						var defs []ast.Expr
+						ast.Inspect(owner.Body(), func(z ast.Node) bool {
+							if as, ok := z.(*ast.AssignStmt); ok && len(as.Lhs) == len(as.Rhs) {
+								for i, l := range as.Lhs {
+									if identObj(owner.Pkg.TypesInfo, l) == types.Object(v) {
+										defs = append(defs, as.Rhs[i])
+									}
+								}
+							}
+							return true
+						})
+						if len(defs) == 1 && mentionsCap(owner, defs[0], depth-1) {
+							found = true
+						}
+					}
+				}
 			case *ast.SelectorExpr:
 				if c, ok := owner.Pkg.TypesInfo.Uses[y.Sel].(*types.Const); ok && c.Pkg() != nil && c.Pkg().Path() == "math" && strings.HasPrefix(c.Name(), "Max") {
 					found = true
